@@ -2,7 +2,6 @@ package sqlittle
 
 import (
 	"fmt"
-	"strings"
 
 	sdb "github.com/alicebob/sqlittle/db"
 )
@@ -38,7 +37,7 @@ func toColumnIndexRowid(s *sdb.Schema, columns []string) ([]columnIndex, error) 
 	for _, c := range columns {
 		n := s.Column(c)
 		if n < 0 {
-			cup := strings.ToUpper(c)
+			cup := upperASCII(c)
 			if cup == "ROWID" || cup == "OID" || cup == "_ROWID_" {
 				res = append(res, columnIndex{nil, n, true})
 				continue
@@ -81,11 +80,11 @@ func columnStoreOrder(schema *sdb.Schema) []int {
 	// all PK columns come first, then all other columns, in order
 	var cols = make([]string, 0, len(schema.Columns))
 	for _, c := range schema.PK {
-		cols = append(cols, strings.ToLower(c.Column))
+		cols = append(cols, lowerASCII(c.Column))
 	}
 loop:
 	for _, c := range schema.Columns {
-		n := strings.ToLower(c.Column)
+		n := lowerASCII(c.Column)
 		for _, oc := range cols {
 			if oc == n {
 				continue loop
@@ -97,7 +96,7 @@ loop:
 	res := make([]int, len(schema.Columns))
 loop2:
 	for i, c := range schema.Columns {
-		n := strings.ToLower(c.Column)
+		n := lowerASCII(c.Column)
 		for j, oc := range cols {
 			if oc == n {
 				res[i] = j
@@ -121,13 +120,13 @@ func pkColumns(schema *sdb.Schema, ind *sdb.SchemaIndex) []int {
 		if c == "" {
 			return sdb.DefaultCollate
 		}
-		return strings.ToLower(c)
+		return lowerASCII(c)
 	}
 	var res []int
 	for _, c := range schema.PK {
 		in := -1
 		for i, ic := range ind.Columns {
-			if strings.EqualFold(ic.Column, c.Column) && collate(ic.Collate) == collate(c.Collate) {
+			if equalFoldASCII(ic.Column, c.Column) && collate(ic.Collate) == collate(c.Collate) {
 				in = i
 				break
 			}
